@@ -324,9 +324,9 @@ class Impl(object):
                     attrs.append({key: reg(v) for key, v in a.items()} if a is not None else {})
                 else:
                     attrs.append(None)
-            p = o.parentNode
-            pars.append(None if p is None else reg(p))
-            owners.append(o.ownerDocument is doc)
+            p = getattr(o, 'parentNode', _NORET)           # an empty __slots__ entry raises AttributeError
+            pars.append(None if p is None else ('unset' if p is _NORET else reg(p)))
+            owners.append(getattr(o, 'ownerDocument', None) is doc)
         return {'kind': kinds, 'name': names, 'kids': kids, 'attrs': attrs, 'par': pars, 'owner': owners, 'mat': mats}
 
 
